@@ -412,6 +412,11 @@ C13_AsIfNoPanic(X) ==
           ELSE /\ C03_PressRule(X) /\ C03_ReleaseRule(X) /\ C04_PressPitch(X) /\ C04_SilentPress(X)
                /\ C02_ReleasePinned(X) /\ C02_ReleaseEmits(X)
      /\ (X.hap0.keys \ {X.in.k} = {} => C01_Quiescent(X))
+  \* ... and an emulated key that was held at the panic lets go like any other: once everything is at rest the
+  \* receiver is silent (its note may sound on another channel than the one panic silenced), what it sends is its own
+  /\ ((X.hap0.on /\ KeyAxisStep(X)) =>
+        /\ C08_Pinned(X) /\ C08_OnlyConfigured(X)
+        /\ (X.hap0.keys = {} => C01_Quiescent(X)))
 
 -----------------------------------------------------------------------------
 (* C14  Exit sequence                                                       *)
